@@ -843,3 +843,6 @@ mod tests {
             .quickcheck(prop as fn(_, _) -> _)
     }
 }
+
+#[cfg(libp2p_verif)]
+pub mod verif_hooks;
